@@ -59,7 +59,11 @@ def check(ctx):
                 safe = q.args[1] if len(q.args) > 1 else dict(q.kwargs).get('safe', Const('/'))
                 safe = strip(safe)
                 raw = contains(q.args[0], lambda x: (isinstance(x, Call) and x.fn in (
-                    'os.fsencode', 'bytes')) or (isinstance(x, MCall) and x.name == 'encode'))
+                    'os.fsencode', 'bytes', 'urllib.parse.unquote', 'urllib.parse.unquote_plus',
+                    'urllib.parse.quote', 'urllib.parse.quote_plus')) or
+                    (isinstance(x, MCall) and x.name in ('encode', 'decode', 'replace',
+                                                        'strip', 'rstrip', 'lstrip',
+                                                        'lower', 'upper')))
                 okq = not raw and isinstance(safe, Const) and isinstance(safe.value, str) and \
                     set(safe.value) <= {'/'} and \
                     not any(k in ('errors', 'encoding') for k, _ in q.kwargs) and \
